@@ -21,6 +21,12 @@ def run(ctx):
     else:
         rows = litgen.gen_cases(ctx.seed, ctx.tier)
         exp = {r[1]: litgen.expected(r) for r in rows}
+    if not ctx.replay:
+        # spellings that f64::from_str accepts but that spell no number: rejected (a literal denotes a finite number)
+        for k, t in enumerate(['010_nan', '010_NaN', '010_inf', '010_infinity', '1e999', '010_1e999', '9' * 400 + '.0e0' if False else '1e309']):
+            rows.append(['LIT', f'nf{k}', 'number', vlib.esc(t)]); exp[f'nf{k}'] = 'err'
+            for st in ('simple', 'basic'):
+                rows.append(['RUN', f'nf{k}{st[0]}', st, vlib.esc(t), '-', '-']); exp[f'nf{k}{st[0]}'] = 'builderr'
     ctx.evaluations = len(rows)
     if not h_ok:
         return
@@ -32,7 +38,7 @@ def run(ctx):
     for r in rows:
         ri = impl.get(r[1], 'missing')
         want = exp.get(r[1])
-        k = r[0] + ':' + (litgen.kind_of(r) if not ctx.replay else r[2])
+        k = r[0] + ':' + (litgen.kind_of(r) if (not ctx.replay and not r[1].startswith('nf')) else r[2])
         kinds[k] = kinds.get(k, 0) + 1
         ctx.distinct.add((r[0], r[2], r[3]))
         if r[0] == 'LIT':
@@ -46,6 +52,10 @@ def run(ctx):
                 ctx.fail('corr', r, impl=ri[:300], model=rm[:300], expect=rm[:300], note='literal parser differs from the Lean model (LIT suite)')
         else:
             got = value_of_run(ri)
+            if want == 'builderr':
+                if not (ri or '').startswith('builderr'):
+                    ctx.fail('oracle', r, impl=ri[:300], model=None, expect='builderr', note=f'{vlib.unesc(r[3])!r} spells no finite number and must be rejected')
+                continue
             if got is None or (want is not None and got != want):
                 ctx.fail('oracle', r, impl=ri[:300], model=None, expect=want, note=f'literal program {vlib.unesc(r[3])!r} on {r[2]} does not evaluate to what it spells')
     # a symbol keeps the name it was written with: the name table of each store is read back (SimpleGarnishData::get_symbols,
